@@ -24,7 +24,7 @@ MANIFEST_INFO = {
     "engine": "D",
     "design_ref": "DESIGN.md section 5, C15",
     "technique": "exhaustive enumeration of Spinner.run histories (function shape x firing time relative to the timeout x leftovers x signal handlers x 1-3 runs per Spinner) on the real SelectReactor under a virtual clock; tie order of simultaneous calls and the instant of an external interrupt are chooser choice points explored by stateless DFS; timeline reference model",
-    "level_text": "Every 1- and 2-run history over 16 function shapes (5 signal/stop-wrapper configurations for single runs) (return/raise/Deferred firing or failing before, at, after the timeout or never/stop requested by the function/re-entry) x 5 leftover shapes x clear_junk or not (timeout 2; single runs also with timeouts 0 and 1), 2- and 3-run histories in which the Deferred of a run that ended without it fires or fails before the next run starts, and every 3-run history over a reduced alphabet, is executed on one Spinner with every tie order and every interrupt instant (<=1 per run); result, exception type, junk accounting, reactor cleanliness, reactor.stop identity and the three signal handlers are checked against the model after every run.",
+    "level_text": "Every 1- and 2-run history over 16 function shapes (5 signal/stop-wrapper configurations for single runs) (return/raise/Deferred firing or failing before, at, after the timeout or never/stop requested by the function/re-entry) x 5 leftover shapes x clear_junk or not (timeout 2; single runs also with timeouts 0 and 1), 2- and 3-run histories in which the Deferred of a run that ended without it fires or fails before the next run starts or half a time unit into it, and every 3-run history over a reduced alphabet, is executed on one Spinner with every tie order and every interrupt instant (<=1 per run); result, exception type, junk accounting, reactor cleanliness, reactor.stop identity and the three signal handlers are checked against the model after every run.",
     "level_note": "The real reactor code runs on a virtual clock (seconds()/doIteration() overridden): the installed wall-clock global reactor is not used because the relative order of 'Deferred fires' and 'timeout fires' could not be owned there. Interrupts are delivered between reactor iterations (every distinct instant), not between two calls due at the same instant.",
 }
 
@@ -142,6 +142,20 @@ def make_function(reactor, spinner, spec, rec, run_index, timeout=None):
     return fn
 
 
+def _with_late_firing(reactor, fn, during):
+    late, d, n = during
+
+    def fn2():
+        if late == "cb@":
+            reactor.callLater(0.5, d.callback, ("late", n))
+        else:
+            d.addErrback(lambda f: None)
+            reactor.callLater(0.5, d.errback, FnError("late%d" % n))
+        return fn()
+
+    return fn2
+
+
 def model_outcomes(spec, run_index, interrupt_at):
     """Set of acceptable observations for one run on a clean spinner."""
     TIMEOUT = _TIMEOUT[0]
@@ -206,7 +220,11 @@ def execute(scenario, chooser):
             kind, extra, clear_before = run[:3]
             late = run[3] if len(run) > 3 else None
             spec = (kind, extra)
-            if late and prev is not None and getattr(prev, "deferred", None) is not None and not prev.deferred.called:
+            during = None
+            if late in ("cb@", "eb@") and prev is not None and getattr(prev, "deferred", None) is not None and not prev.deferred.called:
+                # the previous run's Deferred fires after all DURING this run (half a time unit in)
+                during = (late, prev.deferred, idx - 1)
+            elif late and prev is not None and getattr(prev, "deferred", None) is not None and not prev.deferred.called:
                 # the previous run's Deferred fires after all, while no run is in progress
                 if late == "cb":
                     prev.deferred.callback(("late", idx - 1))
@@ -226,6 +244,8 @@ def execute(scenario, chooser):
                 reactor.stop = app_stop
                 real_stop = app_stop
             fn = make_function(reactor, spinner, spec, rec, idx)
+            if during is not None:
+                fn = _with_late_firing(reactor, fn, during)
             prev = rec
             reactor.arm(chooser, max_interrupts=1, ties=True)
             before_calls = list(reactor.getDelayedCalls())
@@ -333,6 +353,11 @@ def scenarios(tier):
                 out.append(("default", ((k1, "none", False), (k2, "none", True, late))))
                 for k3 in (("stop", 1), ("ret",), ("never",)):
                     out.append(("default", ((k1, "none", False), (k2, "none", True, late), (k3, "none", True, late))))
+    # ... or fires in the middle of the next run (which is long enough to see it)
+    for k1 in (("never",), ("fire", 3), ("stop", 1)):
+        for k2 in (("fire", 1), ("fire", 2), ("fail", 1), ("never",), ("stop", 1), ("fire", 3)):
+            for late in ("cb@", "eb@"):
+                out.append(("default", ((k1, "none", False), (k2, "none", True, late))))
     for a, b, c in itertools.product(three, repeat=3):
         for c1, c2 in itertools.product((False, True), repeat=2):
             out.append(("mixed", ((a[0], a[1], False), (b[0], b[1], c1), (c[0], c[1], c2))))
@@ -394,7 +419,7 @@ def meta(tier):
     return {
         "technique": MANIFEST_INFO["technique"],
         "rule": "scenario = (signal handler config, 1..3 (function shape, leftovers, clear_junk-before) runs on one Spinner); for each scenario all tie orders and interrupt instants (<=1 per run, <=3 deviations) are explored; every execution counts; non-trivial/distinct = distinct (scenario, choices, observations)",
-        "bounds": {"timeout": [2.0, 0, 1.0], "late_firing_between_runs": ["callback", "errback"], "delays": [0, 1, 2, 3], "function_shapes": len(KINDS), "leftover_shapes": len(EXTRAS), "runs_per_spinner": 3, "interrupts_per_run": 1, "signal_configs": list(SIGNAL_CONFIGS)},
+        "bounds": {"timeout": [2.0, 0, 1.0], "late_firing_between_runs_or_during_the_next_run": ["callback", "errback"], "delays": [0, 1, 2, 3], "function_shapes": len(KINDS), "leftover_shapes": len(EXTRAS), "runs_per_spinner": 3, "interrupts_per_run": 1, "signal_configs": list(SIGNAL_CONFIGS)},
         "assumptions": [
             "virtual clock on the real SelectReactor code; selectables never become ready",
             "at the instant where the Deferred fires and the timeout elapses together, either result is accepted (both orders are explored)",
